@@ -28,6 +28,7 @@ pub struct GrevmOutput {
     pub event_counts: HashMap<u32, u64>,
     pub db_fired: usize,
     pub wall_us: u128,
+    pub trace: Option<Vec<(u16, u32)>>,
 }
 
 pub fn grevm_config(g: &GrevmCfg) -> GrevmConfig {
@@ -79,7 +80,7 @@ pub fn run_grevm(
                 let s = unsafe { &*(sched_ptr as *const Scheduler<Arc<MemDb>>) };
                 s.verif_cancel();
             });
-            ctl.begin_run(s, false, Some(cb));
+            ctl.begin_run(s, std::env::var("VERIF_TRACE").is_ok(), Some(cb));
         }
         None => ctl.begin_free_run(),
     }
@@ -117,6 +118,7 @@ pub fn run_grevm(
         event_counts: out.event_counts,
         db_fired: db.fired_count(),
         wall_us,
+        trace: out.trace,
     }
 }
 
@@ -144,15 +146,28 @@ pub struct RunClass {
     pub commits_inc_ge2: u64,
     pub speculative_txs: u64,
     pub timer_fired: u64,
+    /// rewinds that covered a transaction whose latest validation had succeeded (stale Unconfirmed)
+    pub stale_unconfirmed_rewinds: u64,
 }
 
 pub fn classify(log: &[LoggedEv]) -> RunClass {
     let mut c = RunClass::default();
     let mut last_inc: HashMap<usize, usize> = HashMap::new();
     let mut seen: std::collections::HashSet<usize> = Default::default();
+    let mut unconfirmed: std::collections::HashSet<usize> = Default::default();
     for l in log {
         match &l.ev {
+            Ev::ValidationEnd { txid, conflict: false, .. } => {
+                unconfirmed.insert(*txid);
+            }
+            Ev::Finality { txid, .. } => {
+                unconfirmed.remove(txid);
+            }
+            _ => {}
+        }
+        match &l.ev {
             Ev::AttemptStart { txid, incarnation, .. } => {
+                unconfirmed.remove(txid);
                 c.attempts += 1;
                 seen.insert(*txid);
                 if *incarnation >= 2 {
@@ -177,6 +192,9 @@ pub fn classify(log: &[LoggedEv]) -> RunClass {
                 c.rewinds += 1;
                 if previous > index {
                     c.rewinds_effective += 1;
+                    if (*index..*previous).any(|k| unconfirmed.contains(&k)) {
+                        c.stale_unconfirmed_rewinds += 1;
+                    }
                 }
             }
             Ev::FinalityRejected { .. } => c.finality_rejected += 1,
